@@ -14,6 +14,7 @@
 package ftp
 
 import (
+	"errors"
 	"crypto/tls"
 	"net"
 	"strconv"
@@ -110,6 +111,10 @@ type ftpPassiveSocket struct {
 	wg        sync.WaitGroup
 	err       error
 	tlsConfig *tls.Config
+
+	// guards conn and closed: the session may end while the data connection is being accepted
+	mu     sync.Mutex
+	closed bool
 }
 
 func newPassiveSocket(host string, port int, sessionid string, tlsConfig *tls.Config) (DataSocket, error) {
@@ -152,8 +157,13 @@ func (socket *ftpPassiveSocket) Write(p []byte) (n int, err error) {
 }
 
 func (socket *ftpPassiveSocket) Close() error {
-	if socket.conn != nil {
-		return socket.conn.Close()
+	socket.mu.Lock()
+	socket.closed = true
+	conn := socket.conn
+	socket.mu.Unlock()
+
+	if conn != nil {
+		return conn.Close()
 	}
 	return nil
 }
@@ -200,13 +210,23 @@ func (socket *ftpPassiveSocket) GoListenAndServe(sessionid string) (err error) {
 		timer.Stop()
 		listener.Close()
 
-		socket.wg.Done()
+		socket.mu.Lock()
+
 		if err != nil {
 			socket.err = err
-			return
+		} else if socket.closed {
+			// the session has ended meanwhile: nobody is left to use or to close it
+			conn.Close()
+			socket.err = errors.New("passive socket closed")
+		} else {
+			socket.err = nil
+			socket.conn = conn
 		}
-		socket.err = nil
-		socket.conn = conn
+
+		socket.mu.Unlock()
+
+		// (only now: a transfer waiting for the data connection reads conn and err)
+		socket.wg.Done()
 	}()
 	return nil
 }
